@@ -1250,3 +1250,71 @@ def rule_insert_layout(ctx: Ctx) -> None:
             ctx.fail("insert.layout", m, fn, f"insert_qubit: {why}", func="insert_qubit", construct=f"insert_qubit: {why[:70]}")
     else:
         ctx.ok("insert.layout", m, fn, what="4 blocks x (column, row), 2 vectors, block assembly, X_p / Z_p")
+
+
+# --------------------------------------------------------------------------- tensor.layout
+
+
+def rule_tensor_layout(ctx: Ctx) -> None:
+    """tensor.layout: sfc.tensor builds the tableau of A (x) B: every block is block_diag(A.block, B.block) — A first, same block of both —,
+    the blocks are assembled as [[dx, dz], [sx, sz]], and each of the sign / i-phase vectors is (A destabilizer half, B destabilizer half,
+    A stabilizer half, B stabilizer half): both are split in two and interleaved in that order."""
+    repo = ctx.repo
+    m = repo.module(CLIFF)
+    fn = repo.anchor(CLIFF, "tensor")
+    ctx.touch(m, fn)
+    loops = [l for l in fn.body if isinstance(l, ast.For) and isinstance(l.target, ast.Name)]
+    if len(loops) != 1:
+        raise AnalysisError("tensor: the loop over the remaining tableaux was not found")
+    lp = loops[0]
+    B = lp.target.id
+    exp = [c for c in calls_in(lp) if call_attr(c) == "expand"]
+    if len(exp) != 1 or len(exp[0].args) != 3:
+        raise AnalysisError("tensor: <acc>.expand(table, phase, iphase) not found")
+    A = norm(exp[0].func.value)
+    defs = {a.targets[0].id: a.value for a in lp.body if isinstance(a, ast.Assign) and len(a.targets) == 1 and isinstance(a.targets[0], ast.Name)}
+    bad: List[str] = []
+    blocks = {}
+    for k, v in defs.items():
+        if isinstance(v, ast.Call) and (call_name(v) or "").split(".")[-1] == "block_diag":
+            args = [norm(x) for x in v.args]
+            if len(args) == 2 and args[0].startswith(A + ".") and args[1].startswith(B + ".") and args[0].split(".")[-1] == args[1].split(".")[-1]:
+                blocks[args[0].split(".")[-1]] = k
+            else:
+                bad.append(f"`{k} = {short(v)}`: a block of the product is block_diag(<{A}>.block, <{B}>.block) of the *same* block, accumulated tableau first")
+    for b in ("destabilizer_x", "destabilizer_z", "stabilizer_x", "stabilizer_z"):
+        if b not in blocks:
+            bad.append(f"block {b} of the product is not built")
+    tname = norm(exp[0].args[0])
+    tv = defs.get(tname)
+    if isinstance(tv, ast.Call) and call_name(tv) == "np.block" and tv.args and isinstance(tv.args[0], ast.List) and len(tv.args[0].elts) == 2:
+        got = [[norm(x) for x in r.elts] for r in tv.args[0].elts if isinstance(r, ast.List)]
+        want = [[blocks.get("destabilizer_x"), blocks.get("destabilizer_z")], [blocks.get("stabilizer_x"), blocks.get("stabilizer_z")]]
+        if got != want:
+            bad.append(f"the table is assembled as {got}, the layout is [[destabilizer x, destabilizer z], [stabilizer x, stabilizer z]]")
+    else:
+        bad.append("the product table is not assembled with np.block([[dx, dz], [sx, sz]])")
+    for pos, field in ((1, "phase"), (2, "iphase")):
+        v = defs.get(norm(exp[0].args[pos]))
+        while isinstance(v, ast.Call) and call_attr(v) == "astype":
+            v = v.func.value
+        if not (isinstance(v, ast.Call) and call_name(v) in ("np.hstack", "np.concatenate") and v.args and isinstance(v.args[0], (ast.Tuple, ast.List)) and len(v.args[0].elts) == 4):
+            bad.append(f"the {field} vector of the product is not the concatenation of four halves")
+            continue
+        parts = []
+        for e in v.args[0].elts:
+            if isinstance(e, ast.Subscript) and isinstance(e.slice, ast.Constant) and isinstance(e.value, ast.Name) and e.value.id in defs:
+                sp = defs[e.value.id]
+                if isinstance(sp, ast.Call) and call_name(sp) == "np.split" and len(sp.args) == 2 and isinstance(sp.args[1], ast.Constant) and sp.args[1].value == 2:
+                    owner = "A" if norm(sp.args[0]) == f"{A}.{field}" else ("B" if norm(sp.args[0]) == f"{B}.{field}" else "?")
+                    parts.append((owner, e.slice.value))
+                    continue
+            parts.append(("?", None))
+        if parts != [("A", 0), ("B", 0), ("A", 1), ("B", 1)]:
+            bad.append(f"the {field} vector is assembled from {parts}; it must be (A destabilizers, B destabilizers, A stabilizers, B stabilizers) with each "
+                       f"vector split in two halves")
+    if bad:
+        for why in dict.fromkeys(bad):
+            ctx.fail("tensor.layout", m, lp, f"tensor: {why}", func="tensor", construct=f"tensor: {why[:70]}")
+    else:
+        ctx.ok("tensor.layout", m, lp, what="4 block_diag blocks, block assembly, interleaved halves of phase and iphase")
